@@ -4,7 +4,7 @@ package zzverif
 //
 // Record Rec of zz_c10.go (fields of an integer, a floating-point, string, vector, fixed vector, arrays, map, optional, union and
 // record type) with ONE computed field: `-<field>` or, as the reference, `<field> - <field>` for a symbolic field.  The real
-// dsl.Validate decides.  Metamorphic oracle: the verdict on the binary form with the same operand on both sides (no promotion involved).  (An operand that binary minus refuses - a string, a
+// dsl.Validate decides (arrays of numbers may be negated as well: element-wise in numpy and xtensor).  Metamorphic oracle: the verdict on the binary form with the same operand on both sides (no promotion involved).  (An operand that binary minus refuses - a string, a
 // vector, a record - makes every backend emit `-(x)` on a value that has no negation: the generated C++ does not compile, the
 // generated Python raises TypeError.)
 
@@ -42,6 +42,9 @@ func C09UnaryOperand() {
 	verifAssert("no-panic", !p1 && !p2)
 	verifOut("binary-accepted", binOK)
 	verifOut("unary-accepted", unOK)
-	verifAssert("negation-is-defined-iff-subtraction-is", binOK == unOK)
+	// arrays of numbers: `-a[0]` negates the array before it is subscripted, and numpy / xtensor negate arrays element-wise:
+	// such models have always been accepted (binary operators are not defined on arrays)
+	numericArray := field == "arr" || field == "dyn"
+	verifAssert("negation-is-defined-iff-subtraction-is", unOK == (binOK || numericArray))
 	verifReach("c09u-end")
 }
